@@ -225,7 +225,7 @@ func runC15(r *Run) {
 		r.Fail("C15.1", "anchor", "", "tmconsensustest.SimpleHashScheme.Block not found")
 		return
 	}
-	a := w.A(blk)
+	a := w.AU(blk)
 	// ---- C15.1
 	readsHash := false
 	a.Instrs(func(in ssa.Instruction) {
@@ -477,7 +477,7 @@ func runC15(r *Run) {
 	// optional annotation sections are written only when non-nil, with their own label
 	for _, g := range []struct{ fn, field string }{{"tmconsensustest.SimpleHashScheme.Block", "Annotations.User"}, {"tmconsensustest.SimpleHashScheme.Block", "Annotations.Driver"}} {
 		fn := w.Fn(g.fn)
-		fa := w.A(fn)
+		fa := w.AU(fn)
 		found := false
 		fa.Instrs(func(in ssa.Instruction) {
 			c := callCommon(in)
@@ -545,7 +545,7 @@ func runC15(r *Run) {
 		}
 		// all functions reachable for this method
 		fns := []*ssa.Function{fn}
-		fa := w.A(fn)
+		fa := w.AU(fn)
 		fa.Instrs(func(in ssa.Instruction) {
 			if c := callCommon(in); c != nil {
 				if f := c.StaticCallee(); f != nil && f.Blocks != nil && strings.HasSuffix(pkgPathOf(f), "tmconsensustest") {
